@@ -26,6 +26,8 @@ global size_of usize == 8;
 #[verifier::accept_recursive_types(P)]
 pub struct ExPin<P>(Pin<P>);
 pub mod oneshot { pub struct Sender<T> { pub _t: core::marker::PhantomData<T> } }
+//@ item src/lib.rs :: enum SocketType
+//@ end
 //@ item src/lib.rs :: struct SocketOptions
 //@ end
 
@@ -238,6 +240,14 @@ spec fn delivered_iff(s0: Subscriber, s1: Subscriber, m: ZmqMessage) -> bool {
 }
 
 impl PubSocketBackend {
+// C01: the READY a socket emits names ITS OWN type (util::peer_connected asks the backend)
+//@ item src/pub.rs :: impl SocketBackend for PubSocketBackend / fn socket_type
+//@ name PubSocketBackend::socket_type
+//@ inherent
+//@ ret r
+//@ spec
+//@|        ensures r is PUB,
+//@ end
     // stand-in for `SocketBackend::monitor(&self) -> &Mutex<..>` (shared borrow of interior-mutable data -> &mut, D7)
     fn monitor(&mut self) -> (r: &mut Mutex<Option<mpsc::Sender<SocketEvent>>>)
         ensures *r == old(self).socket_monitor, final(self).socket_monitor == *final(r),
@@ -367,6 +377,13 @@ spec fn xdelivered_iff(s0: XPubSubscriber, s1: XPubSubscriber, m: ZmqMessage) ->
     &&& if matches_any(xtopics(s0), first_frame(m)) { handed_one(pq_tried(s0.send_queue), pq_tried(s1.send_queue), m) } else { pq_tried(s1.send_queue) == pq_tried(s0.send_queue) }
 }
 impl XPubSocketBackend {
+//@ item src/xpub.rs :: impl SocketBackend for XPubSocketBackend / fn socket_type
+//@ name XPubSocketBackend::socket_type
+//@ inherent
+//@ ret r
+//@ spec
+//@|        ensures r is XPUB,
+//@ end
 //@ item src/xpub.rs :: impl MultiPeerBackend for XPubSocketBackend / fn peer_disconnected
 //@ name XPubSocketBackend::peer_disconnected
 //@ inherent
